@@ -329,7 +329,10 @@ def evaluate__exp(self: XPathFunction, context: ta.ContextType = None) -> ta.One
     arg: ta.NumericType = self.get_argument(self.context or context, cls=NumericProxy)
     if arg is None:
         return []
-    return math.exp(arg)
+    try:
+        return math.exp(arg)
+    except OverflowError:
+        return math.inf
 
 
 @method(function('exp10', prefix='math', nargs=1, sequence_types=('xs:double?', 'xs:double?')))
@@ -337,7 +340,10 @@ def evaluate__exp10(self: XPathFunction, context: ta.ContextType = None) -> ta.O
     arg: ta.NumericType = self.get_argument(self.context or context, cls=NumericProxy)
     if arg is None:
         return []
-    return float(10 ** arg)
+    try:
+        return float(10 ** arg)
+    except OverflowError:
+        return math.inf
 
 
 @method(function('log', prefix='math', nargs=1, sequence_types=('xs:double?', 'xs:double?')))
@@ -345,7 +351,7 @@ def evaluate__log(self: XPathFunction, context: ta.ContextType = None) -> ta.One
     arg: ta.NumericType | None = self.get_argument(self.context or context, cls=NumericProxy)
     if arg is None:
         return []
-    return float('-inf') if not arg else math.nan if arg <= -1 else math.log(arg)
+    return float('-inf') if not arg else math.nan if arg < 0 else math.log(arg)
 
 
 @method(function('log10', prefix='math', nargs=1, sequence_types=('xs:double?', 'xs:double?')))
@@ -353,7 +359,7 @@ def evaluate__log10(self: XPathFunction, context: ta.ContextType = None) -> ta.O
     arg: ta.NumericType | None = self.get_argument(self.context or context, cls=NumericProxy)
     if arg is None:
         return []
-    return float('-inf') if not arg else math.nan if arg <= -1 else math.log10(arg)
+    return float('-inf') if not arg else math.nan if arg < 0 else math.log10(arg)
 
 
 @method(function('pow', prefix='math', nargs=2,
@@ -370,9 +376,11 @@ def evaluate__pow(self: XPathFunction, context: ta.ContextType = None) -> ta.One
         return math.copysign(float('inf'), x) if (y % 2) == 1 else float('inf')
 
     try:
-        return float(x ** y)
+        return float(float(x) ** float(y))
     except TypeError:
         return math.nan
+    except OverflowError:
+        return -math.inf if x < 0 and y % 2 == 1 else math.inf
 
 
 @method(function('sqrt', prefix='math', nargs=1,
@@ -456,7 +464,7 @@ def evaluate__atan2(self: XPathFunction, context: ta.ContextType = None) -> ta.O
     if self.context is not None:
         context = self.context
 
-    x = self.get_argument(context, cls=NumericProxy)
+    x = self.get_argument(context, required=True, cls=NumericProxy)
     y = self.get_argument(context, index=1, required=True, cls=NumericProxy)
     return math.atan2(x, y)
 
